@@ -8,7 +8,7 @@ src="$1"; id="$2"; prop="$3"
 export GOFLAGS=-mod=mod GOPROXY=off GOSUMDB=off GOTOOLCHAIN=local; unset GOWORK
 demo=$(ls "$src"/*_test.go 2>/dev/null | head -1)
 [ -n "$demo" ] || { echo "$id: no demo test"; exit 1; }
-dest=$(grep -oE '[A-Za-z0-9_/.-]*'"$(basename "$demo")" "$src/DEST.txt" | grep / | head -1)
+dest=$(grep -oE "[A-Za-z0-9_/.-]*$(basename "$demo")" "$src/DEST.txt" | grep / | grep -v "_seed/" | grep -v "^/" | head -1)
 [ -n "$dest" ] || dest=$(basename "$demo")   # repo root
 pkgdir=$(dirname "$dest"); [ "$pkgdir" = "." ] && pkgdir="."
 d=$(mktemp -d /tmp/mbseed.XXXXXX); trap 'rm -rf "$d"' EXIT
